@@ -102,9 +102,11 @@ pub fn process(
     let allowed_args: &[usize] = match op {
         Operation::Lpm | Operation::Elpm => &[0, 2],
         Operation::Br(BranchT::Bs) | Operation::Br(BranchT::Bc) => &[2],
-        Operation::Br(_) | Operation::Rjmp | Operation::Rcall | Operation::Jmp | Operation::Call => {
-            &[1]
-        }
+        Operation::Br(_)
+        | Operation::Rjmp
+        | Operation::Rcall
+        | Operation::Jmp
+        | Operation::Call => &[1],
         Operation::Com
         | Operation::Neg
         | Operation::Inc
